@@ -23,7 +23,8 @@ ObsEffect(o) ==
 OwnerOps(e) == {o \in Range(DocOps) : EffectOf[o.op] = e}
 
 \* with write operations disabled nothing reaches shutdown, the decryption trigger or any
-\* operation that is not marked read-only
+\* operation that is not marked read-only.  e is the OBSERVED effect (channels, database,
+\* pong): a request that was answered 403 and whose handler ran all the same is a violation.
 C18_Gate(w, e) ==
     e # "None" => \/ w
                   \/ /\ e \notin {"Shutdown", "Trigger"}
